@@ -1,6 +1,6 @@
 //@@ module: engine/eval/mobility_and_king_safety.rs
 //@@ tag: c16
-//@@ needs: chess__board@sym.rs chess__game@sym.rs
+//@@ needs: chess__board@sym.rs chess__game@sym.rs chess__bitboard@iter.rs
 use crate::chess::board::verif_kani_sym as sym;
 use crate::chess::game::verif_kani_symgame as symgame;
 use crate::chess::piece::{Piece, PieceKind};
@@ -47,4 +47,56 @@ fn vk_c16_terms_mirror_mobility() {
     assert!(w == b);
     std::mem::forget(g1);
     std::mem::forget(g2);
+}
+
+
+use crate::chess::bitboard::verif_kani_iter as iter;
+
+//@ obligation: C16.terms_mirror.mobility_per_piece
+//@ domain: complete
+//@ functions: engine/eval/mobility_and_king_safety.rs::mobility_and_opp_king_safety_for
+//@ timeout: 2400
+//@ mem_gb: 10
+//@ note: colour symmetry of the mobility / king-attack term in one-shot contract form, NO bound on the number of pieces: on a fully symbolic board (both kings once) the term is computed for White with each of its four piece loops run for ONE arbitrary member, then for Black on the colour-swapped, vertically flipped board with each loop run for the MIRRORED member: the loops iterate mirrored sets (same loops non-empty) and the two terms are equal -- so every piece's contribution (safe-square count -> table entry, enemy-pawn-attack mask included) and the king-zone count are colour-symmetric
+//@ assumes: table lookups == geometry (C07); one-shot iterator contract (C07.bitboard.square_iterator) and loop bodies that only ACCUMULATE (eval += .., attacked |= ..), so the whole-loop result is the fold of per-member results
+#[kani::proof]
+#[kani::unwind(10)]
+//@@stubs-tables
+#[kani::stub(<crate::chess::bitboard::SquareIterator as std::iter::Iterator>::next, iter::one_shot_square_next)]
+fn vk_c16_terms_mirror_mobility_per_piece() {
+    let mb = sym::any_mailbox();
+    kani::assume(rules::count_piece(&mb, Piece::WHITE_KING) == 1 && rules::count_piece(&mb, Piece::BLACK_KING) == 1);
+    let g1 = symgame::game_with_board(sym::board_of(&mb));
+    let g2 = symgame::game_with_board(sym::board_of(&mirror(&mb)));
+    let mut t = Trace::new();
+    iter::rec_reset();
+    let w = mobility_and_opp_king_safety_for::<false>(&g1, Player::White, &mut t);
+    iter::replay_mirrored();
+    let b = mobility_and_opp_king_safety_for::<false>(&g2, Player::Black, &mut t);
+    iter::replay_done();
+    kani::cover!(iter::calls() == 4);
+    kani::cover!(g1.board.pawns(Player::Black).any() && iter::calls() >= 1);
+    assert!(w == b);
+    std::mem::forget(g1);
+    std::mem::forget(g2);
+}
+
+//@ obligation: C16.canary.mobility
+//@ canary: true
+//@ timeout: 2400
+//@ mem_gb: 10
+#[kani::proof]
+#[kani::unwind(10)]
+//@@stubs-tables
+#[kani::stub(<crate::chess::bitboard::SquareIterator as std::iter::Iterator>::next, iter::one_shot_square_next)]
+fn vk_c16_canary_mobility() {
+    let mb = sym::any_mailbox();
+    kani::assume(rules::count_piece(&mb, Piece::WHITE_KING) == 1 && rules::count_piece(&mb, Piece::BLACK_KING) == 1);
+    let g1 = symgame::game_with_board(sym::board_of(&mb));
+    let mut t = Trace::new();
+    iter::rec_reset();
+    let w = mobility_and_opp_king_safety_for::<false>(&g1, Player::White, &mut t);
+    let b = mobility_and_opp_king_safety_for::<false>(&g1, Player::Black, &mut t);
+    assert!(w == b); // must FAIL: the two sides of one board differ
+    std::mem::forget(g1);
 }
